@@ -519,6 +519,10 @@ func ParseNodeString(node string) (*NodeID, string) {
 		return nil, ""
 	}
 	nodeID := BytesToNodeID(common.FromHex(trunks[0]))
+	if nodeID == nil {
+		// not 64 bytes of hex
+		return nil, ""
+	}
 	_, err := nodeID.PubKey()
 	if err != nil {
 		return nil, ""
